@@ -132,6 +132,9 @@ def run(ctx):
                     other_before = open(other, "rb").read()
                     with Tdf(victim).allow_write() as t:
                         spec = C.gen_spec(rng, "events")
+                        live = [e.type for e in t.entries if e.type.value != 0]
+                        if len(live) == len(t.entries) and not t.has_events:
+                            t.remove_block(live[0])          # full table: make room first
                         t.events = C.mkblock(spec)
                         if rng.random() < 0.5:
                             t.remove_block(C.mkblock(spec))
